@@ -33,16 +33,20 @@ def cases(draw, tier):
     case['host_route'] = draw(arith.gen.routes(case['host']))
     repeat = draw(st.integers(0, 5)) == 0
     if kind in ('add_two_numbers', 'add_two_numbers_shift'):
-        na, nb = draw(st.integers(1, 6)), draw(st.integers(1, 6))
+        # mostly short numbers, sometimes one or both long: lopsided lengths are where shifted adders go wrong
+        width = st.one_of(st.integers(1, 6), st.integers(1, 6), st.integers(7, 20))
+        na, nb = draw(width), draw(width)
         case['a'] = arith.operand_picks(draw, na, allow_repeat=True)
         case['b'] = arith.operand_picks(draw, nb, allow_repeat=True)
         if kind == 'add_two_numbers_shift':
-            case['shift'] = draw(st.integers(0, na + 3))
+            case['shift'] = draw(st.one_of(st.integers(0, na + 3), st.sampled_from([max(na - 1, 0), na, na + 1, na + 2])))
     else:
-        n = draw(st.integers(1, 12 if big else 9))
+        # operands are gates of the host, so long operand lists cost nothing extra to evaluate; the block sizes of
+        # the 2^k-1 scheme (3, 7, 15, 31) have to be crossed
+        n = draw(st.one_of(st.integers(1, 12 if big else 9), st.integers(1, 12 if big else 9), st.integers(10, 40)))
         case['ops'] = arith.operand_picks(draw, n, allow_repeat=True if repeat else True)
         if 'weighted' in kind:
-            wmax = draw(st.sampled_from([0, 1, 2, 3, 7]))
+            wmax = draw(st.sampled_from([0, 1, 2, 3, 7, 19]))
             case['weights'] = [draw(st.integers(0, wmax)) for _ in range(n)]
     return case
 
